@@ -3,6 +3,7 @@ package quic
 import (
 	"context"
 	"errors"
+	"fmt"
 	"net"
 
 	"github.com/refraction-networking/uquic/internal/protocol"
@@ -49,6 +50,10 @@ func (t *UTransport) dial(ctx context.Context, addr net.Addr, host string, tlsCo
 	// had no effect — SrcConnIDLength (including 0 → empty SCID) was silently
 	// ignored and the SCID always got the default length.
 	if t.QUICSpec != nil {
+		// The datagram is padded inside a packet buffer; a larger minimum size can never be met.
+		if t.QUICSpec.UDPDatagramMinSize > protocol.MaxPacketBufferSize {
+			return nil, fmt.Errorf("uquic: UDPDatagramMinSize %d exceeds the maximum datagram size %d", t.QUICSpec.UDPDatagramMinSize, protocol.MaxPacketBufferSize)
+		}
 		if t.QUICSpec.InitialPacketSpec.SrcConnIDLength != 0 {
 			t.ConnectionIDGenerator = &protocol.DefaultConnectionIDGenerator{ConnLen: t.QUICSpec.InitialPacketSpec.SrcConnIDLength}
 		} else {
